@@ -486,6 +486,28 @@ pub fn run(ctx: &Ctx, rep: &mut Report) {
         }
         rep.violations(vs);
     }
+    // ---- A2: several diagnostics anchored at one and the same position (a field missing all of its required
+    // arguments, selected twice): their order in every output format must not vary between processes
+    let n2 = ctx.budget(160, 3_200);
+    for case in 0..n2 {
+        let mut rng = ctx.rng("c17a2", case);
+        let Some(proj) = gen_project(&mut rng, &ProjOpts::standard()) else { continue };
+        if proj.schema_is_json {
+            continue;
+        }
+        let ix = crate::schema_ix::SchemaIx::new(&crate::schema_ix::merge_extensions(&proj.schema_model));
+        let Some(q) = ix.query.clone() else { continue };
+        let mut files = proj.files.clone();
+        files.push((format!("{}/schema/zz_same_position.graphql", proj.root), format!("extend type {q} {{\n  samePositionField(a: Int!, b: String!, c: ID!, d: Boolean!): Int\n}}\n")));
+        files.push((format!("{}/ops/same_position.graphql", proj.root), "query SamePosition {\n  samePositionField\n  again: samePositionField\n}\n".to_string()));
+        let fmt = rng.s(&["json", "human", "rdjson"]).to_string();
+        let args: Vec<String> = vec!["check".into(), "--output-format".into(), fmt];
+        rep.trace_case(|| json!({"property":"C17","kind":"rerun","files":files_json(&files),"root":proj.root,"args":args,"k":k_runs}));
+        rep.eval();
+        rep.count("rerun_projects|diagnostics-at-one-position");
+        rep.nontrivial(&format!("samepos{:?}", files));
+        rep.violations(check_rerun(ctx, 1_000_000 + case, &files, &proj.root, &args, k_runs + 3, &mut st));
+    }
     rep.add("rerun_processes", st.runs);
     rep.add("rerun_projects_with_several_diagnostics", st.multi_diag);
     rep.add("rerun_files_in_tree_compared_per_run", st.files_compared);
